@@ -91,10 +91,11 @@ impl BlpHeader {
     }
 
     /// Return expected count of pixels in mipmap at the level i.
-    /// 0 level means original image.
+    /// 0 level means original image. The count saturates at `u32::MAX`
+    /// for header dimensions whose product does not fit.
     pub fn mipmap_pixels(&self, i: usize) -> u32 {
         let (w, h) = self.mipmap_size(i);
-        w * h
+        w.saturating_mul(h)
     }
 
     /// Return alpha bits count in encoding
